@@ -14,6 +14,7 @@ import Props.C18
 #print axioms SpyneModel.Props.C18.generator_direct_vs_wire
 #print axioms SpyneModel.Props.C18.undeclared_return_dropped
 #print axioms SpyneModel.Props.C18.null_never_crashes
+#print axioms SpyneModel.Props.C18.bare_none_view
 #print axioms SpyneModel.Props.C18.is_out_bare_iff
 #print axioms SpyneModel.Props.C18.body_style_table
 #print axioms SpyneModel.Props.C18.whole_list_breaks_wire
